@@ -3,14 +3,14 @@ import XmlRsModel.Thm.C02
 import XmlRsModel.Lemmas.AbsDoc
 /-! Property C01: well-formed documents are accepted and yield the infoset they denote.
     FULL STATEMENT (completeness direction):  `∀ d st, WFA d → parseDoc (render st d) = .ok (denote d, [])`.
-    PROVED for the profile without XML declaration and DOCTYPE (`rendering_parses`, `rendering_parses_at_model_fuel`,
+    PROVED for the profile without DOCTYPE (`rendering_parses`, `rendering_parses_at_model_fuel`,
     `surface_syntax_is_irrelevant`): a concrete document `CDoc` is an abstract document together with every
     surface-syntax choice a rendering can make (white space inside tags and around `=`, either quote, empty-element
     tag or start/end pair, Misc items and white space around the root); EVERY concrete document that meets the
     lexical side conditions of the productions (`CDoc.ok`, decidable) is parsed by the grammar translated from the
     current source, completely, to exactly the abstract document it renders.  The proof is a completeness proof of
     the PEG (`Lemmas/Runs*.lean`: ordered choice and greedy repetition never take a wrong turn on a rendering)
-    followed by `abs (tree) = erase` (`Lemmas/Abs*.lean`).  Documents with an XML declaration or a DOCTYPE are
+    followed by `abs (tree) = erase` (`Lemmas/Abs*.lean`).  Documents with a DOCTYPE are
     covered by the tie against the independent denotation oracle, not by this theorem (hence the other theorems
     here keep their `_partial` names).
     Also proved: what a character reference denotes (for every digit string), determinism and
@@ -70,8 +70,7 @@ theorem items_come_from_the_text_partial (s : Str) (d : IDoc) (rest : Str)
 
 /-! ### completeness on renderings -/
 open Lex in
-/-- EVERY rendering is parsed to the document it renders: for every concrete document without XML declaration and
-    DOCTYPE whose pieces meet the lexical side conditions (`CDoc.ok`), whose nesting stays within the parser's limit
+/-- EVERY rendering is parsed to the document it renders: for every concrete document without DOCTYPE whose pieces meet the lexical side conditions (`CDoc.ok`), whose nesting stays within the parser's limit
     and whose references are declared (`checkDoc`), the parser - run with any sufficient amount of fuel - consumes the
     whole text and returns exactly the abstract document, whatever white space, quotes and tag forms were chosen -/
 theorem rendering_parses (d : CDoc) (hok : d.ok = true) (hdepth : d.root.depth ≤ maxDepth_element)
@@ -117,7 +116,8 @@ theorem surface_syntax_is_irrelevant (d1 d2 : CDoc) (h1 : d1.ok = true) (h2 : d2
 def exAttr1 : CAttr := ⟨[' '], ⟨some ['x', 'm', 'l', 'n', 's'], ['p']⟩, [], [' '], '"', [.text ['u']]⟩
 def exAttr2 : CAttr := ⟨['\n', ' '], ⟨some ['p'], ['k']⟩, [' '], [], '\'', [.text ['v', '"'], .entRef ['a','m','p'], .charRef ['6','5'] false]⟩
 def exAttr3 : CAttr := ⟨[' '], ⟨none, ['x', 'm', 'l', 'n', 's', 'f', 'o', 'o']⟩, [], [], '"', [.text ['1']]⟩
-def exDoc : CDoc := ⟨none, [.pi ['p'] [' ', 'x'], .ws [' ']],
+def exDoc : CDoc := ⟨some ⟨[' ', '\n'], [' '], [], '\'', ['0'], some ([' '], [], [' '], '"', ['U', 'T', 'F', '-', '8']), some (['\t'], [], [], '\'', false), [' ']⟩,
+  [.ws ['\n'], .pi ['x', 'm', 'l', '-', 's'] [' ', 'x'], .ws [' ']],
   .elem ⟨none, ['a']⟩ [exAttr1, exAttr2, exAttr3] [' '] false
     [.elem ⟨none, ['b']⟩ [] [] true [] [], .text ['t'], .entRef ['l','t'], .cdata ['c', ']'], .comment ['c', '-', 'd'],
      .elem ⟨none, ['c']⟩ [] [' '] false [.text ['z']] [' '], .pi ['q'] []] ['\t'],
